@@ -95,7 +95,8 @@ struct Drv {
     virtual uint64_t X_hash() = 0;
     virtual void dump_LU(LUDump &d) = 0;
     virtual cld round_to_prec(cld v) = 0;                      // value as representable in working precision
-    virtual std::vector<long> get_etree() = 0;                 // options.etree after a factorization (size n) or empty
+    virtual std::vector<long> get_etree() = 0;
+    virtual long call_trsv(const char *uplo, const char *trans, const char *diag, std::vector<cld> &x) = 0; // sp_?trsv on the current factors                 // options.etree after a factorization (size n) or empty
 };
 
 Drv *make_drv_s();
